@@ -164,6 +164,7 @@ func withEntriesOperator(d *dataTreeNavigator, context Context, expressionNode *
 
 		collected.HeadComment = candidate.HeadComment
 		collected.FootComment = candidate.FootComment
+		collected.document, collected.filename, collected.fileIndex = candidate.GetDocument(), candidate.GetFilename(), candidate.GetFileIndex()
 
 		log.Debugf("collected %v", collected.LeadingContent)
 
